@@ -493,10 +493,14 @@ def run(rep):
     rng = random.Random(rep.seed * 5323 + rep.shard)
     only = rep.only
     if not only or only == 'script':
+        rep.share(0.3)
         enumerate_scripts(rep, 5 if quick else 6, 97)
+        rep.share(0.5)
         random_scripts(rep, rng, 300 if quick else 30000, 40)
     if not only or only == 'solver':
+        rep.share(0.8)
         syms, env = enumerate_solver(rep, 5 if quick else 6)
+        rep.share(1.0)
         random_solver(rep, rng, 200 if quick else 20000, 30, syms, env)
     # distinct_nontrivial: every enumerated sequence is distinct by
     # construction
